@@ -3,12 +3,12 @@ package main
 // Calls: builtins, conversions, closures (inlined), callees by contract.
 
 import (
-	"strconv"
 	"fmt"
 	"go/ast"
 	"go/token"
 	"go/types"
 	"os"
+	"strconv"
 	"strings"
 )
 
@@ -96,6 +96,7 @@ func (c *FnCtx) evalCall(st *State, call *ast.CallExpr) []*Val {
 			args = append(args, c.copyVal(st, c.eval(st, a)))
 		}
 		if fv != nil && fv.Fn != nil {
+			c.atCallHooks(st, call, "local."+ci.local.Name(), args)
 			return c.inlineLit(st, fv.Fn, args, call)
 		}
 		if fv != nil && fv.FnObj != nil {
@@ -722,78 +723,7 @@ func (c *FnCtx) callFunc(st *State, call *ast.CallExpr, fn *types.Func, recv *Va
 	lookup := func(name string) *Val { return bind[name] }
 	envPre := &SpecEnv{c: c, st: st, lookup: lookup, calleeKey: key}
 	envPre.old = envPre
-	// call-site assertions of the function under verification
-	if c.con != nil && len(c.con.AtCall) > 0 {
-		ord := c.siteOrd(call, key)
-		for i, ac := range c.con.AtCall {
-			if (ac.Callee != shortKey(key) && ac.Callee != key) || ord == 0 || (ac.Ord != 0 && ac.Ord != ord) {
-				continue
-			}
-			evalPos := call.Pos()
-			if p, ok := c.deferEnd[call]; ok {
-				evalPos = p
-			}
-			base := c.specEnvAt(st, evalPos)
-			inner := base.lookup
-			env := *base
-			env.lookup = func(n string) *Val {
-				if strings.HasPrefix(n, "arg") {
-					if k, err := strconv.Atoi(n[3:]); err == nil && k < len(args) {
-						return args[k]
-					}
-				}
-				if v := inner(n); v != nil {
-					return v
-				}
-				// a deferred call can run before a local of its function was declared (early return): the
-				// variable has no value on that path, so any value will do
-				if _, isDeferred := c.deferEnd[call]; isDeferred {
-					if sc := c.pkg.Types.Scope().Innermost(evalPos); sc != nil {
-						if _, o := sc.LookupParent(n, evalPos); o != nil {
-							if vr, ok := o.(*types.Var); ok {
-								if _, have := st.vars[vr]; !have {
-									return c.havocVal(st, vr.Type(), "undeclared")
-								}
-							}
-						}
-					}
-				}
-				return nil
-			}
-			if base.old == base {
-				env.old = &env
-			}
-			if ac.Interfere != "" {
-				if ac.Interfere == "before" {
-					c.siteOrd(call, key)
-					c.interfere(st, call, c.lockRegions(), false)
-				}
-				continue
-			}
-			if ac.SetVar != "" {
-				gv := c.V.specs.GhostVars[ac.SetVar]
-				if gv == nil {
-					c.specErr("set-at-call: no ghost variable " + ac.SetVar)
-					continue
-				}
-				v := c.specEval(&env, ac.Cl.Expr)
-				if v != nil {
-					st.ghost[ac.SetVar] = c.coerce(v, gv.Sort).T
-				}
-				continue
-			}
-			t := c.specBool(&env, ac.Cl.Expr)
-			if ac.Assume {
-				c.assumeNote("environment assumption in " + c.key + " before the call of " + shortKey(key) + ": " + ac.Cl.Src)
-				st.assume(t)
-				continue
-			}
-			c.nObl["call"]++
-			nm := fmt.Sprintf("%s/at-call.%s#%d/%s", c.key, shortKey(key), ord, clauseID(ac.Cl, i))
-			c.addObl(&Obligation{Name: nm, Kind: "at-call", Descr: "call-site assertion before " + key, Pos: c.pos(call), Hyps: append([]string(nil), st.pc...), Goal: t, Clause: ac.Cl.Src})
-			st.assume(t)
-		}
-	}
+	c.atCallHooks(st, call, key, args)
 	// requires
 	for i, r := range con.Requires {
 		t := c.specBool(envPre, r.Expr)
@@ -975,6 +905,82 @@ func (c *FnCtx) callOrd(call *ast.CallExpr) int {
 	return c.callOrds[call]
 }
 
+// atCallHooks processes the call-site clauses (at-call, env-at-call, set-at-call, interfere-at-call) of the function under
+// verification for one call; key is the callee's function key, or "local.<name>" for a call of a local closure variable.
+func (c *FnCtx) atCallHooks(st *State, call *ast.CallExpr, key string, args []*Val) {
+	if c.con != nil && len(c.con.AtCall) > 0 {
+		ord := c.siteOrd(call, key)
+		for i, ac := range c.con.AtCall {
+			if (ac.Callee != shortKey(key) && ac.Callee != key) || ord == 0 || (ac.Ord != 0 && ac.Ord != ord) {
+				continue
+			}
+			evalPos := call.Pos()
+			if p, ok := c.deferEnd[call]; ok {
+				evalPos = p
+			}
+			base := c.specEnvAt(st, evalPos)
+			inner := base.lookup
+			env := *base
+			env.lookup = func(n string) *Val {
+				if strings.HasPrefix(n, "arg") {
+					if k, err := strconv.Atoi(n[3:]); err == nil && k < len(args) {
+						return args[k]
+					}
+				}
+				if v := inner(n); v != nil {
+					return v
+				}
+				// a deferred call can run before a local of its function was declared (early return): the
+				// variable has no value on that path, so any value will do
+				if _, isDeferred := c.deferEnd[call]; isDeferred {
+					if sc := c.pkg.Types.Scope().Innermost(evalPos); sc != nil {
+						if _, o := sc.LookupParent(n, evalPos); o != nil {
+							if vr, ok := o.(*types.Var); ok {
+								if _, have := st.vars[vr]; !have {
+									return c.havocVal(st, vr.Type(), "undeclared")
+								}
+							}
+						}
+					}
+				}
+				return nil
+			}
+			if base.old == base {
+				env.old = &env
+			}
+			if ac.Interfere != "" {
+				if ac.Interfere == "before" {
+					c.siteOrd(call, key)
+					c.interfere(st, call, c.lockRegions(), false)
+				}
+				continue
+			}
+			if ac.SetVar != "" {
+				gv := c.V.specs.GhostVars[ac.SetVar]
+				if gv == nil {
+					c.specErr("set-at-call: no ghost variable " + ac.SetVar)
+					continue
+				}
+				v := c.specEval(&env, ac.Cl.Expr)
+				if v != nil {
+					st.ghost[ac.SetVar] = c.coerce(v, gv.Sort).T
+				}
+				continue
+			}
+			t := c.specBool(&env, ac.Cl.Expr)
+			if ac.Assume {
+				c.assumeNote("environment assumption in " + c.key + " before the call of " + shortKey(key) + ": " + ac.Cl.Src)
+				st.assume(t)
+				continue
+			}
+			c.nObl["call"]++
+			nm := fmt.Sprintf("%s/at-call.%s#%d/%s", c.key, shortKey(key), ord, clauseID(ac.Cl, i))
+			c.addObl(&Obligation{Name: nm, Kind: "at-call", Descr: "call-site assertion before " + key, Pos: c.pos(call), Hyps: append([]string(nil), st.pc...), Goal: t, Clause: ac.Cl.Src})
+			st.assume(t)
+		}
+	}
+}
+
 // interfere: other threads run. The named regions of lock-protected state and the ghosts listed by the function under
 // verification (`interference-ghosts`) take arbitrary values that satisfy its `rely` clauses (old() = the values before)
 // and, when the lock has just been obtained, its `after-lock` monitor invariants.
@@ -1074,6 +1080,10 @@ func (c *FnCtx) siteOrd(call *ast.CallExpr, key string) int {
 			if ce, ok := n.(*ast.CallExpr); ok {
 				if ci := c.calleeOf(ce); ci.fn != nil {
 					k := typesFuncKey(ci.fn)
+					cnt[k]++
+					c.siteOrds[ce] = cnt[k]
+				} else if ci.local != nil {
+					k := "local." + ci.local.Name()
 					cnt[k]++
 					c.siteOrds[ce] = cnt[k]
 				}
@@ -1484,6 +1494,16 @@ func (c *FnCtx) iterateCallback(st *State, call *ast.CallExpr, con *Contract, bi
 		sT.assume(rs[0].T)
 		sF := s.clone()
 		sF.assume(tNot(rs[0].T))
+		if lit != nil {
+			if ls, ord := c.loopSpec(call); ls != nil {
+				for i, oc := range ls.OnStop {
+					env := c.specEnvAt(sF, lit.Body.Pos()+1)
+					t := c.specBool(env, oc.Expr)
+					c.addObl(&Obligation{Name: fmt.Sprintf("%s/loop%d/on-stop#%s", c.key, ord, clauseID(oc, i)), Kind: "loop-on-stop",
+						Descr: "holds whenever the callback stops the iteration", Pos: c.pos(call), Hyps: append([]string(nil), sF.pc...), Goal: t, Clause: oc.Src})
+				}
+			}
+		}
 		return []Exit{{kind: exNormal, st: sT}, {kind: exBreak, st: sF}}
 	}
 	post := func(s *State) []Exit {
